@@ -69,7 +69,7 @@ def gen_area(rng, unit: F, off: F, kinds=("box", "circle", "concave", "hole")):
 def structured_traces(rng, unit: F, off: F):
     """hand-shaped families that random generation rarely produces: mutually abutting (hooked) pairs, spirals,
     a trace with both ends abutting, a comb of abutments on one target; random lattice symmetry"""
-    fam = rng.choice(["hook", "spiral", "both_ends", "comb"])
+    fam = rng.choice(["hook", "spiral", "both_ends", "comb", "mirror_x"])
     if fam == "hook":      # A starts on B, B ends on A
         tr = [[(24, 0), (24, 40), (96, 40), (96, -32)], [(0, 0), (96, 0)]]
     elif fam == "spiral":  # A ends on B, B ends on C, C ends on A
@@ -78,6 +78,14 @@ def structured_traces(rng, unit: F, off: F):
         tr = [[(0, 0), (96, 0)], [(72, 0), (72, 64)], [(72, 40), (8, 40)], [(32, 40), (32, 0)]]
     elif fam == "both_ends":  # one trace with both ends abutting two others
         tr = [[(0, 0), (0, 80)], [(64, 0), (64, 80)], [(0, 24), (32, 48), (64, 32)]]
+    elif fam == "mirror_x":  # two different traces that are mirror images inside one bounding box (crossing at its centre)
+        w, h = rng.choice([(48, 32), (64, 64), (40, 72)])
+        if rng.random() < 0.5:
+            tr = [[(0, 0), (w, h)], [(0, h), (w, 0)]]
+        else:
+            tr = [[(0, 0), (w // 4, h), (w, h // 2)], [(0, h), (w // 4, 0), (w, h // 2 + 8)]]
+            tr = [[(0, 0), (w // 2, h // 4), (w, h)], [(0, h), (w // 2, h - h // 4), (w, 0)]]
+        tr.append([(w + 40, -8), (w + 40, h + 8)])
     else:
         tr = [[(0, 0), (120, 0)]] + [[(16 + 24 * i, 0), (16 + 24 * i + rng.choice([-4, 0, 6]), rng.choice([24, -32, 40]))] for i in range(rng.randint(2, 4))]
     sx, sy = rng.choice([1, -1]), rng.choice([1, -1])
@@ -107,6 +115,7 @@ class Arrangement:
         self.valid = r.get("valid") == "1"
         self.reason = dec(r.get("invalid", "")) if not self.valid else ""
         self.wellformed = r.get("wellformed") == "1"
+        self.quiet = r.get("quiet") == "1"  # hypothesis of C01_snap_stage_identity holds for the clipped pieces
         self.nodes = []
         self.branches = []
         self.pieces = []
